@@ -230,9 +230,9 @@ def save_load(ctx, tk):
                 for sub in ast.walk(e):
                     if isinstance(sub, ast.Subscript) and isinstance(sub.slice, ast.Constant) and isinstance(sub.slice.value, str):
                         # guarded by `"key" in d` -> optional (legacy) key
-                        guarded = any(isinstance(t.ast, ast.Compare) and isinstance(t.ast.left, ast.Constant)
-                                      and t.ast.left.value == sub.slice.value and truth
-                                      for t, truth in ga.cfg.facts_at(n))
+                        guarded = any(t.k == "cmp" and t.a[0] == "in" and truth and any(is_const(o, sub.slice.value) for o in (t.a[1], t.a[2]))
+                                      or t.k == "cmp" and t.a[0] == "not in" and not truth and any(is_const(o, sub.slice.value) for o in (t.a[1], t.a[2]))
+                                      for t, truth, _ in facts_at(ga, n))
                         (legacy if guarded else read).add(sub.slice.value)
     what = "every key load() reads is a key save() writes"
     if not written or not read:
